@@ -312,6 +312,88 @@ Proof.
     + cbn in H. exact H.
 Qed.
 
+(** * Whole transactions *)
+
+Lemma memz_grantees_of : forall g c sg, memz sg (grantees_of g c) = granted g c sg.
+Proof.
+  intros g c sg. unfold grantees_of, granted, memz. induction g as [|[a b] g IH]; cbn [filter map existsb fst snd].
+  - reflexivity.
+  - destruct (a =? c) eqn:E; cbn [map existsb snd andb].
+    + rewrite IH. rewrite (Z.eqb_sym sg b). reflexivity.
+    + rewrite IH. reflexivity.
+Qed.
+
+(** With the lookup table local to the loop body the decorator is exactly "every message passes". *)
+Lemma ante_loop_no_carry : forall g tx lk,
+  ante_loop false g lk tx = forallb (fun sm => ante_msg g (fst sm) (snd sm)) tx.
+Proof.
+  intros g tx. induction tx as [|[spec m] r IH]; intros lk; cbn [ante_loop forallb fst snd].
+  - reflexivity.
+  - unfold ante_msg at 1. destruct (ms_has_meta spec); cbn [negb].
+    + destruct (existsb (Z.eqb (m_creator m)) (m_meta_signers m)) eqn:E1; cbn [orb andb].
+      * apply IH.
+      * rewrite app_nil_r.
+        assert (E : existsb (fun sg => memz sg (grantees_of g (m_creator m))) (m_meta_signers m)
+                    = existsb (granted g (m_creator m)) (m_meta_signers m)).
+        { clear E1. induction (m_meta_signers m) as [|x l IHl].
+          - reflexivity.
+          - cbn [existsb]. rewrite memz_grantees_of, IHl. reflexivity. }
+        rewrite E. destruct (existsb (granted g (m_creator m)) (m_meta_signers m)); cbn [andb]; [apply IH | reflexivity].
+    + apply IH.
+Qed.
+
+Lemma ante_tx_sound_lemma : forall g tx, ante_tx false g tx = true ->
+  forall spec m, In (spec, m) tx -> ms_has_meta spec = true ->
+  exists sg, In sg (m_meta_signers m) /\ (sg = m_creator m \/ granted g (m_creator m) sg = true).
+Proof.
+  intros g tx H spec m Hin Hmeta. unfold ante_tx in H. rewrite ante_loop_no_carry in H.
+  eapply forallb_forall in H; eauto. cbn [fst snd] in H. eapply ante_sound_lemma; eauto.
+Qed.
+
+(** If the table is carried from one message to the next, the decorator is unsound: the grant of an
+    earlier creator authorises the signer of a later message of somebody else. *)
+Lemma ante_carry_refuted_lemma :
+  exists g tx spec m, ante_tx true g tx = true /\ In (spec, m) tx /\ ms_has_meta spec = true /\
+    forall sg, In sg (m_meta_signers m) -> sg <> m_creator m /\ granted g (m_creator m) sg = false.
+Proof.
+  pose (sp := MkSpec "any" SignMetadata true [(creator_field, FromCreator)]).
+  (* 9 granted 1 a fee allowance; 1 signs alone: first as 9's grantee, then in 7's name *)
+  exists [(9, 1)], [(sp, MkMsg [1] 9 [] []); (sp, MkMsg [1] 7 [] [])], sp, (MkMsg [1] 7 [] []).
+  split; [vm_compute; reflexivity|]. split; [right; left; reflexivity|]. split; [reflexivity|].
+  intros sg [<-|[]]. split; [cbn; discriminate | vm_compute; reflexivity].
+Qed.
+
+Lemma handle_all_owned_changed : forall auth tx s s' p,
+  handle_all auth tx s = Some s' -> get (owned s') p <> get (owned s) p ->
+  exists spec m r, In (spec, m) tx /\ forallb (guard_ok auth m) (ms_rows spec) = true /\
+                   In r (ms_rows spec) /\ target auth m r = Some (true, p).
+Proof.
+  intros auth tx. induction tx as [|[spec m] rest IH]; intros s s' p H Hch; cbn [handle_all] in H.
+  - inversion H; subst. congruence.
+  - destruct (forallb (guard_ok auth m) (ms_rows spec)) eqn:G; [|discriminate].
+    destruct (Z.eq_dec (get (owned (apply_rows auth m (ms_rows spec) s)) p) (get (owned s) p)) as [Heq|Hne].
+    + destruct (IH _ _ p H) as [spec' [m' [r [Hin [Hg [Hr HT]]]]]]; [rewrite Heq; exact Hch|].
+      exists spec', m', r. repeat split; try assumption. right. exact Hin.
+    + apply apply_rows_owned_changed in Hne as [r [Hr HT]].
+      exists spec, m, r. repeat split; try assumption. left. reflexivity.
+Qed.
+
+Lemma tx_no_cross_principal_lemma : forall auth g tx s s',
+  (forall spec m, In (spec, m) tx -> spec_ok spec = true) ->
+  deliver_tx false auth g tx s = Done s' ->
+  forall p, get (owned s') p <> get (owned s) p ->
+  exists spec m, In (spec, m) tx /\ authorised auth g spec m p.
+Proof.
+  intros auth g tx s s' Hok Hd p Hch. unfold deliver_tx in Hd.
+  destruct (ante_tx false g tx) eqn:A; cbn [negb] in Hd; [|discriminate].
+  destruct (handle_all auth tx s) as [s1|] eqn:Hh; [|discriminate]. inversion Hd; subst s1.
+  destruct (handle_all_owned_changed auth tx s s' p Hh Hch) as [spec [m [r [Hin [Hg [Hr HT]]]]]].
+  exists spec, m. split; [exact Hin|].
+  unfold ante_tx in A. rewrite ante_loop_no_carry in A. eapply forallb_forall in A; eauto. cbn [fst snd] in A.
+  eapply row_target_authorised; eauto.
+  pose proof (Hok spec m Hin) as Hs. unfold spec_ok in Hs. eapply forallb_forall in Hs; eauto.
+Qed.
+
 (** * Non-vacuity examples *)
 Open Scope string_scope.
 
